@@ -39,6 +39,15 @@ Section EquivRetain.
           | (Abort, s') => (Fail FAbort, (s', sc))
           | (OutOfFuel, s') => (Fail FNoFuel, (s', sc))
           end
+      | [_] =>                                     (* a generator closure `f()`: a fresh element or a panic *)
+          match gen_elem sc s with
+          | (Val r, s') => k (VInt (fst r)) (s', snd r)
+          | (Panicking, s') => (Panic, (s', sc))
+          | (UB u, s') => (Fail (FUB u), (s', sc))
+          | (AllocAbort x y, s') => (Fail (FAllocAbort x y), (s', sc))
+          | (Abort, s') => (Fail FAbort, (s', sc))
+          | (OutOfFuel, s') => (Fail FNoFuel, (s', sc))
+          end
       | [_; VPtr p; VPtr q] =>
           match pair_call cfg kind p q sc s with
           | (Val r, s') => k (VBool (fst r)) (s', snd r)
